@@ -128,7 +128,8 @@ Proof.
   - destruct rs; reflexivity.
   - destruct rs; reflexivity.
   - destruct rs; reflexivity.
-  - destruct rs; try reflexivity. destruct (find_srx r (sp_rx sp)); reflexivity.
+  - destruct rs; try reflexivity. destruct (find_srx r (sp_rx sp)); [|reflexivity].
+    destruct (find_srx r' (sp_rx sp)); reflexivity.
   - destruct rs; reflexivity.
   - destruct rs; reflexivity.
   - destruct rs; reflexivity.
